@@ -354,18 +354,18 @@ def build_diff(op):
 
 def specs(tier):
     out = [
-        Spec("h1_read_then_commit_seq", build("seq"), cfg=cfg(), unwind=5, timeout=900,
+        Spec("h1_read_then_commit_seq", build("seq"), cfg=cfg(), unwind=5, timeout=2700,
              desc="sequential: optional cache-filling read, commit of any journal account (all status bytes), read again",
              bounds={"addresses": A, "slots": SL, "value_bits": 8}),
-        Spec("h2_reader_vs_commit", build("reader_commit"), cfg=cfg(inject=True), unwind=5, timeout=1200,
+        Spec("h2_reader_vs_commit", build("reader_commit"), cfg=cfg(inject=True), unwind=5, timeout=3600,
              desc="db_storage(a, s) by a worker with the ordered commit of a transaction on a running atomically at any conflicting visible operation of the read",
              bounds={"addresses": A, "slots": SL, "threads": 2, "context_switches": 2}),
-        Spec("h2_commit_vs_reader", build("commit_reader"), cfg=cfg(inject=True), unwind=5, timeout=1200,
+        Spec("h2_commit_vs_reader", build("commit_reader"), cfg=cfg(inject=True), unwind=5, timeout=3600,
              desc="the commit with the worker's read running atomically at any conflicting visible operation of the commit",
              bounds={"addresses": A, "slots": SL, "threads": 2, "context_switches": 2}),
     ]
     for op in OPS:
-        out.append(Spec(f"h3_diff_{op}", build_diff(op), cfg=diff_cfg(), unwind=5, timeout=900,
+        out.append(Spec(f"h3_diff_{op}", build_diff(op), cfg=diff_cfg(), unwind=5, timeout=2700,
                         desc=f"differential: grevm CacheAccountInfo::{op} (MIR) vs revm-database CacheAccount::{op} (MIR of the dependency) from any (status, account) pair",
                         bounds={"slots": SL, "value_bits": 8}))
     return out
